@@ -119,7 +119,8 @@ theorem send_rel (cfg : Cfg) (s : St) (c : Cut) (f : Frame) (fl : Bool) (h : Rel
   cases hcur : cur.isEmpty <;> cases fl <;>
     by_cases h1 : size cur + frameLen f > cfg.limit <;>
     by_cases h2 : chan.length < cfg.chanCap <;>
-    simp [h1, h2, hcur, encFrames_append] <;> constructor <;> simp_all [encFrames_append]
+    by_cases h3 : chan.length + 1 < cfg.chanCap <;>
+    simp [h1, h2, h3, encFrames_append] <;> constructor <;> simp_all [encFrames_append]
 
 theorem tick_rel (cfg : Cfg) (s : St) (c : Cut) (h : Rel s c) :
     Rel (tick cfg s) c.close := by
@@ -134,7 +135,7 @@ theorem tick_rel (cfg : Cfg) (s : St) (c : Cut) (h : Rel s c) :
   simp only [e1]
   cases hcur : cur.isEmpty <;>
     by_cases h2 : chan.length < cfg.chanCap <;>
-    simp [h2, hcur] <;> constructor <;> simp_all
+    simp [h2] <;> constructor <;> simp_all
 
 theorem proc_rel (cfg : Cfg) (s : St) (c : Cut) (h : Rel s c) :
     Rel (proc cfg s) c := by
@@ -167,5 +168,311 @@ theorem run_rel (cfg : Cfg) (ops : List Op) (hp : ∀ op ∈ ops, op.plain = tru
     Rel (run cfg ops) (spec cfg.limit ops) := by
   apply foldl_rel cfg ops hp
   exact ⟨rfl, rfl, rfl, rfl⟩
+
+/-! ### conservation -/
+
+def Inv (s : St) : Prop := s.lost = [] → s.offered.reverse = s.wire.reverse ++ s.chan
+
+theorem drain_lost (cfg : Cfg) (ch : List Bytes) : ∀ w l, (drain cfg ch (w, l)).2 = [] →
+    l = [] ∧ (drain cfg ch (w, l)).1 = ch.reverse ++ w := by
+  induction ch with
+  | nil => intro w l h; simpa [drain] using h
+  | cons d rest ih =>
+    intro w l h
+    unfold drain at h ⊢
+    split
+    · rename_i hd
+      rw [if_pos hd] at h
+      obtain ⟨h1, h2⟩ := ih _ _ h
+      subst h1
+      exact ⟨rfl, by simp [h2]⟩
+    · rename_i hd
+      rw [if_neg hd] at h
+      have := ih _ _ h
+      simp at this
+
+theorem drain_suffix (cfg : Cfg) (ch : List Bytes) : ∀ w l, w <:+ (drain cfg ch (w, l)).1 := by
+  induction ch with
+  | nil => intro w l; simp [drain]
+  | cons d rest ih =>
+    intro w l
+    unfold drain
+    split
+    · exact List.IsSuffix.trans (List.suffix_cons d w) (ih _ _)
+    · exact ih _ _
+
+theorem send_inv (cfg : Cfg) (s : St) (f : Frame) (fl : Bool) (h : Inv s) : Inv (send cfg s f fl) := by
+  rcases s with ⟨isOpen, closed, buf, chan, wire, offered, lost, pc, cc, sc, ec⟩
+  unfold Inv at h ⊢
+  simp only at h
+  cases isOpen <;> cases closed <;> cases fl <;> by_cases hb : buf = [] <;>
+    by_cases h1 : cfg.limit < buf.length + (encFrame f).length <;>
+    by_cases h2 : chan.length < cfg.chanCap <;>
+    by_cases h3 : chan.length + 1 < cfg.chanCap <;>
+    simp [send, push, hb, h1, h2, h3] <;> simp_all
+
+theorem tick_inv (cfg : Cfg) (s : St) (h : Inv s) : Inv (tick cfg s) := by
+  rcases s with ⟨isOpen, closed, buf, chan, wire, offered, lost, pc, cc, sc, ec⟩
+  unfold Inv at h ⊢
+  simp only at h
+  cases isOpen <;> cases closed <;> by_cases hb : buf = [] <;>
+    by_cases h2 : chan.length < cfg.chanCap <;>
+    simp [tick, push, hb, h2] <;> simp_all
+
+theorem proc_inv (cfg : Cfg) (s : St) (h : Inv s) : Inv (proc cfg s) := by
+  rcases s with ⟨isOpen, closed, buf, chan, wire, offered, lost, pc, cc, sc, ec⟩
+  unfold Inv at h ⊢
+  simp only at h
+  unfold proc
+  (repeat' split) <;> simp_all
+
+theorem shutdown_inv (cfg : Cfg) (s : St) (h : Inv s) : Inv (shutdown cfg s) := by
+  unfold shutdown
+  split
+  · exact h
+  · unfold Inv at h ⊢
+    simp only
+    intro hl
+    have := drain_lost cfg s.chan s.wire s.lost hl
+    rw [this.2, h this.1]; simp
+
+theorem step_inv (cfg : Cfg) (s : St) (op : Op) (h : Inv s) : Inv (step cfg s op) := by
+  cases op with
+  | send f fl => exact send_inv cfg s f fl h
+  | sendNil => exact h
+  | tick => exact tick_inv cfg s h
+  | proc => exact proc_inv cfg s h
+  | shutdown => exact shutdown_inv cfg s h
+  | reopen => exact h
+
+theorem foldl_inv (cfg : Cfg) (ops : List Op) : ∀ s, Inv s → Inv (ops.foldl (step cfg) s) := by
+  induction ops with
+  | nil => intro s h; exact h
+  | cons op ops ih => intro s h; exact ih _ (step_inv cfg s op h)
+
+/-- nothing was dropped ⇒ what is on the wire followed by what waits in the channel is exactly what was
+    handed to the channel, in order (any history, including shutdown / reopen) -/
+theorem lost_nil_wire (cfg : Cfg) (ops : List Op) (h : (run cfg ops).lost = []) :
+    (run cfg ops).wire.reverse ++ (run cfg ops).chan = (run cfg ops).offered.reverse := by
+  have := foldl_inv cfg ops {} (by intro _; rfl)
+  exact (this h).symm
+
+theorem send_frame (cfg : Cfg) (s : St) (f : Frame) (fl : Bool) :
+    (send cfg s f fl).wire = s.wire ∧ (send cfg s f fl).packCount = s.packCount + 1 ∧
+    (send cfg s f fl).sendCount = s.sendCount ∧ (send cfg s f fl).errCount = s.errCount := by
+  rcases s with ⟨isOpen, closed, buf, chan, wire, offered, lost, pc, cc, sc, ec⟩
+  cases isOpen <;> cases closed <;> cases fl <;> by_cases hb : buf = [] <;>
+    by_cases h1 : cfg.limit < buf.length + (encFrame f).length <;>
+    by_cases h2 : chan.length < cfg.chanCap <;>
+    by_cases h3 : chan.length + 1 < cfg.chanCap <;>
+    simp [send, push, hb, h1, h2, h3] <;> simp_all
+
+theorem tick_frame (cfg : Cfg) (s : St) :
+    (tick cfg s).wire = s.wire ∧ (tick cfg s).packCount = s.packCount ∧
+    (tick cfg s).sendCount = s.sendCount ∧ (tick cfg s).errCount = s.errCount := by
+  rcases s with ⟨isOpen, closed, buf, chan, wire, offered, lost, pc, cc, sc, ec⟩
+  cases isOpen <;> cases closed <;> by_cases hb : buf = [] <;>
+    by_cases h2 : chan.length < cfg.chanCap <;>
+    simp [tick, push, hb, h2] <;> simp_all
+
+/-- the wire only ever grows at its newest end -/
+theorem wire_suffix (cfg : Cfg) (s : St) (op : Op) : s.wire <:+ (step cfg s op).wire := by
+  cases op with
+  | send f fl => simp [step, (send_frame cfg s f fl).1]
+  | sendNil => simp [step]
+  | tick => simp [step, (tick_frame cfg s).1]
+  | proc =>
+    simp only [step]; unfold proc
+    (repeat' split) <;> simp
+  | shutdown =>
+    simp only [step]; unfold shutdown
+    split
+    · simp
+    · exact drain_suffix cfg _ _ _
+  | reopen => simp [step, reopen]
+
+/-! ### laws of the spec -/
+
+def flat (c : Cut) : List Frame := c.done.reverse.flatten ++ c.cur
+
+theorem flat_close (c : Cut) : flat c.close = flat c := by
+  unfold Cut.close
+  split
+  · rfl
+  · simp [flat]
+
+theorem flat_send (l : Nat) (c : Cut) (f : Frame) (fl : Bool) : flat (c.send l f fl) = flat c ++ [f] := by
+  have e : ∀ c1 : Cut, flat { c1 with cur := c1.cur ++ [f] } = flat c1 ++ [f] := by
+    intro c1; simp [flat]
+  unfold Cut.send
+  simp only []
+  split <;> split <;> simp [flat_close, e]
+
+theorem flat_step (l : Nat) (c : Cut) (op : Op) : flat (specStep l c op) = flat c ++ accepted [op] := by
+  cases op <;> simp [specStep, accepted, flat_close, flat_send]
+
+theorem accepted_cons (op : Op) (ops : List Op) : accepted (op :: ops) = accepted [op] ++ accepted ops := by
+  cases op <;> simp [accepted]
+
+theorem flat_foldl (l : Nat) (ops : List Op) : ∀ c, flat (ops.foldl (specStep l) c) = flat c ++ accepted ops := by
+  induction ops with
+  | nil => intro c; simp [accepted]
+  | cons op ops ih =>
+    intro c
+    rw [List.foldl_cons, ih, flat_step, accepted_cons op ops, List.append_assoc]
+
+theorem spec_flatten (l : Nat) (ops : List Op) :
+    (spec l ops).done.reverse.flatten ++ (spec l ops).cur = accepted ops := by
+  have := flat_foldl l ops {}
+  simpa [flat, spec] using this
+
+def Good (l : Nat) (c : Cut) : Prop :=
+  (∀ g ∈ c.done, g ≠ [] ∧ (size g ≤ l ∨ g.length = 1)) ∧ (size c.cur ≤ l ∨ c.cur.length = 1)
+
+theorem good_close (l : Nat) (c : Cut) (h : Good l c) : Good l c.close := by
+  rcases c with ⟨done, cur⟩
+  unfold Good at h ⊢
+  unfold Cut.close
+  cases cur with
+  | nil => simpa using h
+  | cons a cur => simp_all
+
+theorem good_send (l : Nat) (c : Cut) (f : Frame) (fl : Bool) (h : Good l c) : Good l (c.send l f fl) := by
+  rcases c with ⟨done, cur⟩
+  unfold Good at h ⊢
+  simp only at h
+  cases cur with
+  | nil => cases fl <;> simp_all [Cut.send, Cut.close]
+  | cons a cur =>
+    by_cases h1 : l < frameLen a + size cur + frameLen f <;> cases fl <;>
+      simp [Cut.send, Cut.close, size_append, h1] <;> simp_all <;> omega
+
+theorem good_step (l : Nat) (c : Cut) (op : Op) (h : Good l c) : Good l (specStep l c op) := by
+  cases op <;> simp [specStep, good_close, good_send, h]
+
+theorem good_foldl (l : Nat) (ops : List Op) : ∀ c, Good l c → Good l (ops.foldl (specStep l) c) := by
+  induction ops with
+  | nil => intro c h; exact h
+  | cons op ops ih => intro c h; exact ih _ (good_step l c op h)
+
+theorem spec_good (l : Nat) (ops : List Op) : Good l (spec l ops) :=
+  good_foldl l ops {} ⟨by simp, by simp⟩
+
+theorem spec_nonempty (l : Nat) (ops : List Op) : ∀ g ∈ (spec l ops).done, g ≠ [] :=
+  fun g hg => ((spec_good l ops).1 g hg).1
+
+/-- a datagram exceeds the limit only when it is a single frame -/
+theorem spec_size (l : Nat) (ops : List Op) :
+    (∀ g ∈ (spec l ops).done, size g ≤ l ∨ g.length = 1) ∧
+    (size (spec l ops).cur ≤ l ∨ (spec l ops).cur.length = 1) :=
+  ⟨fun g hg => ((spec_good l ops).1 g hg).2, (spec_good l ops).2⟩
+
+/-! ### counters -/
+
+def nSends : List Op → Nat
+  | [] => 0
+  | .send _ _ :: r => nSends r + 1
+  | .sendNil :: r => nSends r + 1
+  | _ :: r => nSends r
+
+theorem step_packCount (cfg : Cfg) (s : St) (op : Op) :
+    (step cfg s op).packCount = s.packCount + nSends [op] := by
+  cases op with
+  | send f fl => simp [step, nSends, (send_frame cfg s f fl).2.1]
+  | sendNil => simp [step, nSends]
+  | tick => simp [step, nSends, (tick_frame cfg s).2.1]
+  | proc => simp only [step, nSends]; unfold proc; (repeat' split) <;> simp
+  | shutdown => simp only [step, nSends]; unfold shutdown; split <;> simp
+  | reopen => simp [step, nSends, reopen]
+
+theorem nSends_cons (op : Op) (ops : List Op) : nSends (op :: ops) = nSends [op] + nSends ops := by
+  cases op <;> simp [nSends] <;> omega
+
+theorem foldl_packCount (cfg : Cfg) (ops : List Op) :
+    ∀ s, (ops.foldl (step cfg) s).packCount = s.packCount + nSends ops := by
+  induction ops with
+  | nil => intro s; simp [nSends]
+  | cons op ops ih =>
+    intro s
+    rw [List.foldl_cons, ih, step_packCount, nSends_cons op ops]; omega
+
+theorem packCount_eq (cfg : Cfg) (ops : List Op) : (run cfg ops).packCount = nSends ops := by
+  have := foldl_packCount cfg ops {}
+  simpa [run] using this
+
+def ChanInv (s : St) : Prop := s.isOpen = true ∧ s.closed = false ∧ s.chanCount = s.offered.length
+
+theorem send_chanInv (cfg : Cfg) (s : St) (f : Frame) (fl : Bool) (h : ChanInv s) :
+    ChanInv (send cfg s f fl) := by
+  rcases s with ⟨isOpen, closed, buf, chan, wire, offered, lost, pc, cc, sc, ec⟩
+  unfold ChanInv at h ⊢
+  simp only at h
+  obtain ⟨rfl, rfl, rfl⟩ := h
+  cases fl <;> by_cases hb : buf = [] <;>
+    by_cases h1 : cfg.limit < buf.length + (encFrame f).length <;>
+    by_cases h2 : chan.length < cfg.chanCap <;>
+    by_cases h3 : chan.length + 1 < cfg.chanCap <;>
+    simp [send, push, hb, h1, h2, h3]
+
+theorem tick_chanInv (cfg : Cfg) (s : St) (h : ChanInv s) : ChanInv (tick cfg s) := by
+  rcases s with ⟨isOpen, closed, buf, chan, wire, offered, lost, pc, cc, sc, ec⟩
+  unfold ChanInv at h ⊢
+  simp only at h
+  obtain ⟨rfl, rfl, rfl⟩ := h
+  by_cases hb : buf = [] <;>
+    by_cases h2 : chan.length < cfg.chanCap <;>
+    simp [tick, push, hb, h2]
+
+theorem step_chanInv (cfg : Cfg) (s : St) (op : Op) (hp : op.plain = true) (h : ChanInv s) :
+    ChanInv (step cfg s op) := by
+  cases op with
+  | send f fl => exact send_chanInv cfg s f fl h
+  | sendNil => exact h
+  | tick => exact tick_chanInv cfg s h
+  | proc => simp only [step]; unfold proc; (repeat' split) <;> exact h
+  | shutdown => simp [Op.plain] at hp
+  | reopen => simp [Op.plain] at hp
+
+theorem foldl_chanInv (cfg : Cfg) (ops : List Op) (hp : ∀ op ∈ ops, op.plain = true) :
+    ∀ s, ChanInv s → ChanInv (ops.foldl (step cfg) s) := by
+  induction ops with
+  | nil => intro s h; exact h
+  | cons op ops ih =>
+    intro s h
+    exact ih (fun o ho => hp o (by simp [ho])) _ (step_chanInv cfg s op (hp op (by simp)) h)
+
+theorem chanCount_eq (cfg : Cfg) (ops : List Op) (hp : ∀ op ∈ ops, op.plain = true) :
+    (run cfg ops).chanCount = (run cfg ops).offered.length :=
+  (foldl_chanInv cfg ops hp {} ⟨rfl, rfl, rfl⟩).2.2
+
+def SendInv (s : St) : Prop := s.sendCount = s.wire.length + s.errCount
+
+theorem step_sendInv (cfg : Cfg) (s : St) (op : Op) (hp : op.plain = true) (h : SendInv s) :
+    SendInv (step cfg s op) := by
+  unfold SendInv at h ⊢
+  cases op with
+  | send f fl =>
+    obtain ⟨e1, _, e2, e3⟩ := send_frame cfg s f fl
+    simp only [step, e1, e2, e3, h]
+  | sendNil => exact h
+  | tick =>
+    obtain ⟨e1, _, e2, e3⟩ := tick_frame cfg s
+    simp only [step, e1, e2, e3, h]
+  | proc => simp only [step]; unfold proc; (repeat' split) <;> simp [h] <;> omega
+  | shutdown => simp [Op.plain] at hp
+  | reopen => simp [Op.plain] at hp
+
+theorem foldl_sendInv (cfg : Cfg) (ops : List Op) (hp : ∀ op ∈ ops, op.plain = true) :
+    ∀ s, SendInv s → SendInv (ops.foldl (step cfg) s) := by
+  induction ops with
+  | nil => intro s h; exact h
+  | cons op ops ih =>
+    intro s h
+    exact ih (fun o ho => hp o (by simp [ho])) _ (step_sendInv cfg s op (hp op (by simp)) h)
+
+/-- sendCount counts the process() iterations that took a datagram: those written plus those the socket refused -/
+theorem sendCount_eq (cfg : Cfg) (ops : List Op) (hp : ∀ op ∈ ops, op.plain = true) :
+    (run cfg ops).sendCount = (run cfg ops).wire.length + (run cfg ops).errCount :=
+  foldl_sendInv cfg ops hp {} rfl
 
 end Ext.Udp
